@@ -39,7 +39,11 @@ var nameSamples = []string{"A", "space", "fi", "f_i", "uni0041", "uni00410042", 
 // genConcOp draws one operation.  Everything it touches is created inside the
 // closure or captured immutably, so tasks share nothing through the harness.
 func genConcOp(t *sim.Tape) concOp {
-	switch t.Weighted(4, 3, 2, 2, 2, 3, 2, 1, 1, 1, 1, 1, 1) {
+	return genConcOpKind(t, t.Weighted(4, 3, 2, 2, 2, 3, 2, 1, 1, 1, 1, 1, 1))
+}
+
+func genConcOpKind(t *sim.Tape, kind int) concOp {
+	switch kind {
 	case 9: // fonts only a foreign producer writes: composites, many glyphs, other lenIV
 		return foreignFontOp(t)
 	case 10: // dictionary comparisons and the other operators with hidden helpers
@@ -482,6 +486,34 @@ func safeConc(op concOp) (res string) {
 func genConcTasks(t *sim.Tape) [][]concOp {
 	n := 2 + t.Weighted(4, 3, 2, 1, 1)
 	tasks := make([][]concOp, n)
+	if t.Choose(3) == 2 {
+		// every caller does the same thing at the same time, each on objects of
+		// its own (the operations are built again from the same draws): whatever
+		// the operation sets up on first use - a rarely needed table, a lazily
+		// compiled pattern - is then needed by all of them at once
+		k := 1 + t.Choose(3)
+		hostileFirst := t.Bool(1, 2)
+		start := len(t.Rec)
+		for j := 0; j < k; j++ {
+			if j == 0 && hostileFirst {
+				tasks[0] = append(tasks[0], genConcOpKind(t, 0))
+			} else {
+				tasks[0] = append(tasks[0], genConcOp(t))
+			}
+		}
+		rec := append([]uint32(nil), t.Rec[start:]...)
+		for i := 1; i < n; i++ {
+			rt := sim.ReplayTape(rec)
+			for j := 0; j < k; j++ {
+				if j == 0 && hostileFirst {
+					tasks[i] = append(tasks[i], genConcOpKind(rt, 0))
+				} else {
+					tasks[i] = append(tasks[i], genConcOp(rt))
+				}
+			}
+		}
+		return tasks
+	}
 	for i := range tasks {
 		k := 1 + t.Choose(4)
 		for j := 0; j < k; j++ {
